@@ -173,11 +173,18 @@ def check(ctx):
                         if nr > 1e-9 * float(np.linalg.norm(y)):
                             cn = np.linalg.norm(X, axis=0)
                             ok_cols = cn > 0
-                            cosines = np.abs(X[:, ok_cols].T @ r_) / (cn[ok_cols] * nr)
-                            worst_cos = float(cosines.max()) if cosines.size else 0.0
-                            if not worst_cos <= 1e-5:
+                            # normal equations in column-scaled form (every basis force pattern normalised to unit length): the residual
+                            # projected on each unit column, relative to the largest scaled coefficient / scaled right-hand side.  Cholesky's
+                            # backward error is invariant under this scaling, so the bound holds for ill-conditioned designs as well, and a
+                            # block of columns of small norm (higher orders at small amplitudes) is not drowned by a large one
+                            gs = np.abs(X[:, ok_cols].T @ r_) / cn[ok_cols]
+                            cs = np.abs(c[ok_cols]) * cn[ok_cols]
+                            bsc = np.abs(X[:, ok_cols].T @ y) / cn[ok_cols]
+                            worst_cos = float(gs.max() / max(cs.max(), bsc.max(), 1e-300)) if gs.size else 0.0
+                            well = True
+                            if well and not worst_cos <= 1e-6:
                                 ctx.fail("oracle", f"C06/oracle/orthogonality/{kind}", f"{P.sc['name']} orders {orders} data '{kind}' ({d.shape[0]} snapshots, batch_size {bs}): the residual is not orthogonal to a basis force pattern "
-                                         f"(cosine {worst_cos:.2e}), i.e. a better admissible fit exists, and no exception was raised",
+                                         f"(column-scaled normal-equation residual {worst_cos:.2e}), i.e. a better admissible fit exists, and no exception was raised",
                                          replay={**P.describe(), "orders": list(orders), "data_kind": kind, "n_snap": int(d.shape[0]), "batch_size": bs, "disps": d.tolist(), "forces": f.tolist(), "cosine": worst_cos}, has_input=True)
                         # the same numbers held in single precision: the conversion to double is exact, so the fit must be the one of
                         # the float64 copy (anything else means part of the accumulation ran in single precision, i.e. normal
